@@ -2,14 +2,16 @@ module verif/harness
 
 go 1.25.0
 
-require github.com/php-any/origami v0.0.0
+require (
+	github.com/php-any/origami v0.0.0
+	google.golang.org/protobuf v1.36.11
+)
 
 require (
 	filippo.io/edwards25519 v1.1.0 // indirect
 	github.com/dlclark/regexp2 v1.11.5 // indirect
 	github.com/go-sql-driver/mysql v1.9.3 // indirect
 	github.com/ncruces/go-strftime v1.0.0 // indirect
-	google.golang.org/protobuf v1.36.11 // indirect
 )
 
 replace github.com/php-any/origami => /repo
